@@ -3,6 +3,25 @@ import argparse, importlib, os, sys, traceback
 from . import common as C
 
 
+def generic_replay(mod, prop, tier, path):
+    """--replay <witness>: show the witness (native program with its arguments, witness schedule, or event graph) and decide the
+    property again on the CURRENT tree; every check regenerates its encoding and re-executes its own counterexamples (natively
+    where a native replay exists, in the interpreter for schedules), so exit 1 means the violation is still there."""
+    try:
+        text = open(path).read()
+    except OSError as e:
+        print('cannot read %s: %s' % (path, e))
+        return 2
+    print('---- witness %s (%d lines) ----' % (path, text.count('\n') + 1))
+    print('\n'.join(text.split('\n')[:60]))
+    print('---- re-deciding %s on the current tree ----' % prop)
+    rc = mod.run(tier)
+    base = os.path.basename(path)
+    same = os.path.exists(os.path.join(C.REPLAY_DIR, prop, base)) and rc == 1
+    print('replay: %s' % ('the check still reports a violation%s' % (' with the same witness file ' + base if same else '') if rc == 1 else 'no violation on the current tree' if rc == 0 else 'inconclusive'))
+    return rc
+
+
 def main():
     ap = argparse.ArgumentParser()
     ap.add_argument('prop')
@@ -18,7 +37,9 @@ def main():
         return 2
     try:
         if a.replay:
-            return mod.replay(a.replay)
+            if hasattr(mod, 'replay'):
+                return mod.replay(a.replay)
+            return generic_replay(mod, prop, tier, a.replay)
         return mod.run(tier)
     except C.Inconclusive as e:
         print('INCONCLUSIVE property=%s %s' % (prop, e))
